@@ -27,6 +27,11 @@ From Low Require Import Lib.MachInt Lib.BitSeq Model.SectionWriter Spec.SectionW
   Model.MemFile Model.SectionReader Spec.SectionReaderSpec Model.SectionPair Spec.SectionPairSpec
   Proofs.SectionWriterProofs Proofs.SectionWriterCalls Proofs.MemFileProofs Proofs.SectionIOProofs
   Proofs.SectionStreamProofs Proofs.SectionCountProofs Proofs.SectionPairProofs.
+From Low Require Import Model.SectionNest Spec.SectionNestSpec Proofs.SectionNestProofs.
+From Low Require Import Lib.Bytes Model.Pbcmpl Spec.PbcmplSpec Model.PbcmplFile.
+From Low Require Import Spec.PbcmplFileSpec.
+From Low Require Proofs.PbcmplStream Proofs.PbcmplFileProofs Proofs.PbcmplFileRoundTrip Proofs.PbcmplFileFrames
+  Proofs.PbcmplFileStream.
 Import ListNotations.
 Open Scope Z_scope.
 
@@ -455,3 +460,188 @@ Example C18_two_sections_nonvacuous :
   file_after [9;9;9;9;9;9] outs = [9;1;2;4;6;9] /\
   file_after [9;9;9;9;9;9] (outs_of_first wcs outs) = [9;1;2;9;9;9].
 Proof. vm_compute. repeat split; reflexivity. Qed.
+
+(** * Widening: sections of sections -- NewSectionWriter(inner, off, n) / AtToWriter(inner, off) where
+    [inner] is itself a SectionWriter.  [Model/SectionNest.v]: the outer writer's underlying WriteAt is the
+    inner writer's WriteAt (section-relative offset), down to the mock; a call is addressed to a level
+    (0 = innermost).  [Spec/SectionNestSpec.v]: a stack of windows (o, n) with cursors; a write is cut by
+    every window on its way down. *)
+
+(** the stacked int64 writers refine the stack of cursor/length windows: every return value and
+    every (offset, bytes) that reaches the underlying writer, for every interleaving of calls on any
+    level, any depth, any faulty writer *)
+Theorem C18_nested_refinement : forall ws sc lcs,
+  Forall (fun w => 0 <= fst w /\ 0 <= snd w /\ fst w + snd w <= 2^63 - 1) ws ->
+  Forall (fun r => 0 <= fst r) sc -> Forall (fun lc => call_ok (snd lc)) lcs ->
+  map (fun r => (rets r, ucalls r)) (runN (map (fun w => NewSectionWriter (fst w) (snd w)) ws) sc lcs)
+  = spec_nested ws sc (map to_lacall lcs).
+Proof. exact nested_refines. Qed.
+Print Assumptions C18_nested_refinement.
+
+(** a WriteAt through a stack of int64 section writers IS the write through the stack of windows *)
+Theorem C18_nested_writeat : forall ss ws,
+  Forall2 (fun s w => base s = fst w /\ limit s = fst w + snd w) ss ws ->
+  Forall (fun w => 0 <= fst w /\ 0 <= snd w /\ fst w + snd w <= 2^63 - 1) ws ->
+  forall sc p o, - 2^63 <= o < 2^63 -> wat ss sc p o = aw ws sc p o.
+Proof. exact wat_aw. Qed.
+Print Assumptions C18_nested_writeat.
+
+(** and every call (x, bs) it makes to the underlying writer lands inside EVERY window of the stack
+    ([inside ws a l]: l bytes at relative a lie in the first window, and -- at o + a -- in the one
+    below, and so on), at x = a + the sum of the window offsets, carrying a prefix of the buffer *)
+Theorem C18_nested_containment : forall ws sc p a x bs,
+  In (x, bs) (snd (aw ws sc p a)) ->
+  x = sumo ws + a /\ inside ws a (zlen bs) /\ bs = firstn (length bs) p.
+Proof. exact aw_contained. Qed.
+Print Assumptions C18_nested_containment.
+
+(** two levels, absolute file positions: inside the inner section AND inside the outer one -- an
+    outer section that extends past the inner end cannot write past it *)
+Theorem C18_nested_intersection : forall o1 n1 o2 n2 sc p a x bs,
+  In (x, bs) (snd (aw [(o2, n2); (o1, n1)] sc p a)) ->
+  o1 + o2 <= x /\ x + zlen bs <= o1 + o2 + n2 /\ o1 <= x /\ x + zlen bs <= o1 + n1.
+Proof. exact aw2_intersection. Qed.
+Print Assumptions C18_nested_intersection.
+
+(** non-vacuity: inner (10, 4), outer (1, 8) straddling the inner end: an outer Write of 8 bytes is cut
+    to the 3 that fit the inner section and returns (3, ErrShortWrite); the next outer Write is refused
+    by the inner section (0, ErrShortWrite) although the outer cursor is inside the outer section *)
+Example C18_nested_nonvacuous :
+  map (fun r => (rets r, ucalls r))
+    (runN [NewSectionWriter 10 4; NewSectionWriter 1 8] [] [(1%nat, CWrite [1;2;3;4;5;6;7;8]); (1%nat, CWrite [9]); (0%nat, CWrite [7])])
+  = [([3; 1], [(11, [1;2;3])]); ([0; 1], []); ([1; 0], [(10, [7])])] /\
+  spec_nested [(10, 4); (1, 8)] [] [(1%nat, AWrite [1;2;3;4;5;6;7;8]); (1%nat, AWrite [9]); (0%nat, AWrite [7])]
+  = [([3; 1], [(11, [1;2;3])]); ([0; 1], []); ([1; 0], [(10, [7])])].
+Proof. split; vm_compute; reflexivity. Qed.
+
+(** * Widening across packages: pbcmpl frames in one file through iohelper
+    (pbcmpl.Marshal(iohelper.AtToWriter(f, off), msg), pbcmpl.Unmarshal(iohelper.AtToReader(f, off), msg):
+    how pbcmpl's tests and users combine the two).  [Model/PbcmplFile.v] instantiates Marshal /
+    Unmarshal of Model/Pbcmpl.v (C06/C07) with the section writer over the in-memory file and with
+    AtToReader over that file.  The body codec (proto.Marshal/Unmarshal of the message type) is
+    universally quantified, with [dec (enc m) = Some m] as a premise where a frame is read back. *)
+Module PFP := Low.Proofs.PbcmplFileProofs.
+Module PRT := Low.Proofs.PbcmplFileRoundTrip.
+Module PFF := Low.Proofs.PbcmplFileFrames.
+
+(** Unmarshal through AtToReader(f, o) computes the C06/C07 specification of Unmarshal on the bytes
+    of the file from o on (stream ending with a plain io.EOF), for ANY file content: garbage,
+    cut frames, frames damaged by an overlapping write. *)
+Theorem C18_pbcmpl_unmarshal_any_file : forall (Msg : Type) (dec : list Z -> option Msg) grow,
+  (forall c, 0 < c -> c < grow c) ->
+  forall f o fuel,
+  0 <= o <= 2^63 - 1 -> zlen f < 2^63 - 1 -> bytes_ok f -> (length f + 2 <= fuel)%nat ->
+  exists n ver err m s' left,
+    Unmarshal dec (fread_r f) grow fuel (AtToReader o) = Some (n, ver, err, m, s')
+    /\ spec_Unmarshal dec EEOF (skipn (Z.to_nat o) f) PFP.t_eof = (n, ver, err, m, left).
+Proof. exact PFP.Unmarshal_file_spec. Qed.
+Print Assumptions C18_pbcmpl_unmarshal_any_file.
+
+(** Marshal through AtToWriter(f, o) returns (32 + body length, nil) and leaves the frame at o *)
+Theorem C18_pbcmpl_marshal_file : forall (Msg : Type) (enc : Msg -> list Z) o f m ver,
+  0 <= o -> zlen (ver_of ver) <= 16 -> o + 32 + zlen (enc m) < 2^63 - 1 ->
+  exists s',
+    Marshal enc fwrite (AtToWriter o, f) m ver
+    = Some (32 + zlen (enc m), None, (s', write_at f o (frame (ver_of ver) (enc m)))).
+Proof. exact PRT.Marshal_file. Qed.
+Print Assumptions C18_pbcmpl_marshal_file.
+
+(** round trip over a file with any other content: nothing outside the frame changes, and
+    Unmarshal at the same offset returns the message and its version *)
+Theorem C18_pbcmpl_file_round_trip :
+  forall (Msg : Type) (enc : Msg -> list Z) (dec : list Z -> option Msg) grow,
+  (forall c, 0 < c -> c < grow c) ->
+  forall o f m ver,
+  0 <= o -> zlen (ver_of ver) <= 16 -> no_trailing_nul (ver_of ver) = true ->
+  bytes_ok (ver_of ver) -> bytes_ok (enc m) -> bytes_ok f -> dec (enc m) = Some m ->
+  o + 32 + zlen (enc m) < 2^63 - 1 -> zlen f < 2^63 - 1 ->
+  exists sw' f',
+    Marshal enc fwrite (AtToWriter o, f) m ver = Some (32 + zlen (enc m), None, (sw', f'))
+    /\ f' = write_at f o (frame (ver_of ver) (enc m))
+    /\ (forall i, 0 <= i -> (i < o \/ o + 32 + zlen (enc m) <= i) -> byte_at f' i = byte_at f i)
+    /\ exists sr',
+         Unmarshal dec (fread_r f') grow (file_fuel f') (AtToReader o)
+         = Some (32 + zlen (enc m), ver_of ver, None, Some m, sr').
+Proof. exact PRT.marshal_unmarshal_file. Qed.
+Print Assumptions C18_pbcmpl_file_round_trip.
+
+(** several frames in one file (the two body codecs of the harness: 0 raw, 1 BytesValue): placed at
+    offsets whose frames do not overlap ([PFF.pairwise_clear]), in any order, over any initial content
+    of at most B < 2^63-1 bytes -- every Marshal returns (frame length, nil), every byte outside all
+    frames keeps its value, and every frame is read back at its offset *)
+Theorem C18_pbcmpl_frames_in_one_file : forall kind B ps f,
+  kind = 0 \/ kind = 1 -> B < 2^63 - 1 ->
+  Forall (fun p => 0 <= fst p /\ Proofs.PbcmplStream.msg_wf (snd p)) ps ->
+  Forall (fun p => PFF.place_end kind p <= B) ps -> PFF.pairwise_clear kind ps ->
+  bytes_ok f -> zlen f <= B ->
+  exists rs f',
+    marshal_all kind f ps = Some (rs, f')
+    /\ rs = map (fun p => (PFF.place_end kind p - fst p, @None perr)) ps
+    /\ (forall i, 0 <= i -> Forall (PFF.clear_of kind i 1) ps -> byte_at f' i = byte_at f i)
+    /\ Forall (fun p => exists s',
+         UnmarshalAt kind f' (fst p)
+         = Some (PFF.place_end kind p - fst p, ver_of (fst (snd p)), None, Some (snd (snd p)), s')) ps.
+Proof. exact PFF.marshal_all_unmarshal_each. Qed.
+Print Assumptions C18_pbcmpl_frames_in_one_file.
+
+Module PFS := Low.Proofs.PbcmplFileStream.
+
+(** Unmarshal from ANY position of an AtToReader(f, o) computes the specification on the bytes that
+    are left and leaves the reader exactly n bytes further ([SIO.RR o s pos]: the reader state [s]
+    stands at position [pos] of the stream from o; [PFP.rem f o pos]: the bytes left there) *)
+Theorem C18_pbcmpl_unmarshal_advances : forall (Msg : Type) (dec : list Z -> option Msg) grow,
+  (forall c, 0 < c -> c < grow c) ->
+  forall f o s pos fuel,
+  0 <= o -> zlen f < 2^63 - 1 -> bytes_ok f -> Proofs.SectionIOProofs.RR o s pos ->
+  (length f + 2 <= fuel)%nat ->
+  exists n ver err m s' left,
+    Unmarshal dec (fread_r f) grow fuel s = Some (n, ver, err, m, s')
+    /\ spec_Unmarshal dec EEOF (PFP.rem f o pos) PFP.t_eof = (n, ver, err, m, left)
+    /\ Proofs.SectionIOProofs.RR o s' (pos + n) /\ left = PFP.rem f o (pos + n).
+Proof. exact PFP.Unmarshal_file_spec_at. Qed.
+Print Assumptions C18_pbcmpl_unmarshal_advances.
+
+(** hence repeated Unmarshal through ONE AtToReader(f, o) reads the file as a stream of frames:
+    call after call what the specification says of the bytes left -- any file content *)
+Theorem C18_pbcmpl_stream_any_file : forall kind f o count,
+  0 <= o <= 2^63 - 1 -> zlen f < 2^63 - 1 -> bytes_ok f ->
+  StreamAt kind f o count = Some (spec_stream_file count kind (skipn (Z.to_nat o) f)).
+Proof. exact PFS.StreamAt_spec. Qed.
+Print Assumptions C18_pbcmpl_stream_any_file.
+
+(** frames marshalled back to back from offset o ([PFS.chained]: each starts where the previous one
+    ends) are read back through one AtToReader(f', o), one frame per call, in order *)
+Theorem C18_pbcmpl_frames_as_stream : forall kind B ps f o,
+  kind = 0 \/ kind = 1 -> B < 2^63 - 1 -> 0 <= o <= 2^63 - 1 ->
+  Forall (fun p => 0 <= fst p /\ Proofs.PbcmplStream.msg_wf (snd p)) ps ->
+  Forall (fun p => PFF.place_end kind p <= B) ps ->
+  PFF.pairwise_clear kind ps -> PFS.chained kind o ps ->
+  bytes_ok f -> zlen f <= B ->
+  exists rs f',
+    marshal_all kind f ps = Some (rs, f')
+    /\ StreamAt kind f' o (length ps)
+       = Some (map (fun m => (32 + zlen (k_enc kind (snd m)), ver_of (fst m), @None perr, snd m)) (map snd ps)).
+Proof. exact PFS.marshal_all_stream. Qed.
+Print Assumptions C18_pbcmpl_frames_as_stream.
+
+(** non-vacuity: a BytesValue frame at 40 and a versioned one at 3 (written in that order) into a
+    5-byte file; both read back; bytes 0..2 keep their value; reading at 4 (inside a frame) fails *)
+Example C18_pbcmpl_nonvacuous :
+  let ps := [(40, (None, [1;2;3])); (3, (Some [49;46;50], []))] in
+  PFF.pairwise_clear 1 ps /\
+  match marshal_all 1 [9;8;7;6;5] ps with
+  | Some (rs, f) =>
+      rs = [(37, None); (32, None)] /\ firstn 3 f = [9;8;7] /\ zlen f = 77 /\
+      unmarshal_all 1 f [40; 3; 4] =
+        Some [(37, [49;46;48;46;48], None, [1;2;3]); (32, [49;46;50], None, []);
+              (32, [46;50;0;0;0;0;0;0;0;0;0;0;0;0;0;32], Some EInvalidHeaderSize, [])] /\
+      (* as a stream from 3: the versioned frame, then the 5 zero bytes of the gap read as a header *)
+      StreamAt 1 f 3 3 = Some [(32, [49;46;50], None, []); (32, [0;0;0;0;0;49;46;48;46;48], Some EInvalidHeaderSize, [])]
+  | None => False
+  end.
+Proof.
+  split.
+  - cbn [PFF.pairwise_clear]. split; [|split; constructor]. constructor; [|constructor].
+    unfold PFF.clear_of, PFF.place_end. right. vm_compute. discriminate.
+  - vm_compute. repeat split; reflexivity.
+Qed.
